@@ -312,7 +312,7 @@ fn check_group(w: &World, si: usize, seq: &[u8], parts: &[usize], only: Option<&
 pub fn run(ctx: &Ctx) -> i32 {
     let col = Collector::new();
     let w = world();
-    let maxlen = ctx.tier.pick(3, 4) as u32;
+    let maxlen = ctx.tier.pick(3, 5) as u32;
     let k = alphabet().len() as u64;
     let nseq = seq_count(k, maxlen);
     let nst = w.stmts.len() as u64;
